@@ -103,7 +103,7 @@ SUPPORTED_MILESTONES = [
 LABEL_RE_LIST = []
 for label_name in LABEL_NAMES:
     # create $label_name-$major_ver.$minor_ver patterns
-    LABEL_RE_LIST.append(re.compile(r"^%s-\d+\.\d+$" % label_name))
+    LABEL_RE_LIST.append(re.compile(r"^%s-[0-9]+\.[0-9]+\Z" % label_name))
 
 
 #: supported variant types
@@ -299,7 +299,7 @@ class Compose(productmd.common.MetadataBase):
 
     def _validate_date(self):
         self._assert_type("date", list(six.string_types))
-        self._assert_matches_re("date", [r"^\d{8}$"])
+        self._assert_matches_re("date", [r"^[0-9]{8}\Z"])
 
     def _validate_type(self):
         self._assert_value("type", COMPOSE_TYPES)
@@ -838,7 +838,7 @@ class Variant(VariantBase):
 
     def _validate_id(self):
         self._assert_type("id", list(six.string_types))
-        self._assert_matches_re("id", [r"^[a-zA-Z0-9]+$"])
+        self._assert_matches_re("id", [r"^[a-zA-Z0-9]+\Z"])
 
     def _validate_uid(self):
         if self.parent is None:
